@@ -3,6 +3,18 @@
 REFLECT = "Go reflect / runtime semantics as specified in the model (DESIGN.md 3.4)"
 
 PROPS = {
+    "C03": {
+        "gens": ["Prec"],
+        "lean": "Anko.Props.C03",
+        "streams": [{"name": "parse", "n_quick": 3000, "n_thorough": 60000}],
+        "trusted": ["goyacc and its LALR driver (the compiled parser is compared with the table-driven spelling, not modelled)",
+                    "strconv.ParseFloat / ParseInt as the reference for literals in the harness"],
+        "assumptions": ["the relational precedence-climbing parser PExpr stands for the generated parser on operator expressions: both rebuild the intended tree from the "
+                        "same token strings (checked on every generated tree, min and full spelling)"],
+        "partial": ["the round-trip theorems cover trees of binary operators (all 19, incl. ?? and in) with atoms; prefix operators, ?: and postfix forms are covered by the "
+                    "metamorphic stream only", "float literals: differential against strconv only",
+                    "string-literal unescaping: differential only"],
+    },
     "C13": {
         "gens": ["EnvLocks"],
         "lean": "Anko.Props.C13",
@@ -156,6 +168,19 @@ PROPS = {
 
 # Texts for MANIFEST.json (level_claimed.text, level_note, technique, design_ref)
 MANIFEST_TEXT = {
+    "C03": {
+        "text": "Machine-checked proofs (Lean 4): the precedence table REGENERATED from parser.go.y is the one the property states (decide), every "
+                "binary production stores $1/$3 in LHS/RHS with the operator it was spelled with, and - for ANY table with one associativity "
+                "per level, hence for the regenerated one - the precedence-climbing parser reads the minimally parenthesised spelling of "
+                "every binary-operator tree (unbounded depth) back to exactly that tree, and the fully parenthesised spelling to the same "
+                "tree; decimal integer numerals below 2^63 denote exactly their value and larger ones are rejected (induction on the "
+                "numeral). Correspondence/oracle: thousands of trees incl. unary, ?:, postfix forms in 7 statement positions, spelled both "
+                "ways, must be rebuilt exactly by the real parser; the Lean printer is compared token for token with the harness printer; "
+                "hex/binary/decimal literals through the Lean toNumber model; floats and strings against strconv / the escape rules.",
+        "note": "Trusted: Lean kernel; goyacc (LALR tables not modelled); the grammar extractor (regex over parser.go.y, closed shapes). Follows fix a4e6d85 (-0b literals).",
+        "technique": "Lean 4 proof (precedence-climbing round trip by induction on trees; decide over regenerated table) + metamorphic parser correspondence",
+        "design_ref": "DESIGN.md section 6 (C03)",
+    },
     "C13": {
         "text": "Machine-checked (Lean 4): (1) `decide` over lock-region facts REGENERATED from env/*.go on every run - every access of an Env "
                 "method to the shared tables happens while the scope's RWMutex is held, writes under the write lock; (2) for the RWMutex "
